@@ -45,7 +45,7 @@ func (h *Hist) genConfigs() {
 		}
 		minN, maxN := r.rng(0, 3), 0
 		maxN = minN + r.rng(1, 9)
-		if r.chance(25) {
+		if r.chance(25) || focus == "autodisc" {
 			minN, maxN = 0, 0 // auto-discover
 		}
 		soft := r.pickI(60, 120, 300)
@@ -397,6 +397,9 @@ func (h *Hist) randomEvent() string {
 	if focus == "faults" && r.chance(30) {
 		ev = r.pickI(15, 15, 4, 19, 13) // odd nodes, odd taint values, vanished objects, deliveries
 	}
+	if focus == "autodisc" && r.chance(45) {
+		ev = r.pickI(14, 14, 14, 0, 21, 10, 13) // the cloud group's own minimum and maximum move; load changes; time
+	}
 	if focus == "rotate" && r.chance(70) {
 		ev = r.pickI(0, 1, 2, 3, 21, 10, 13) // mostly load changes across all bands, time, deliveries: keep the group at its minimum
 	}
@@ -502,7 +505,11 @@ func (h *Hist) randomEvent() string {
 		}
 	case 14:
 		g := h.aws.asgs[o.CloudProviderGroupName]
-		switch r.intn(4) {
+		which := r.intn(4)
+		if focus == "autodisc" {
+			which = r.pickI(0, 1, 1, 1, 2, 3)
+		}
+		switch which {
 		case 0:
 			g.Max += int64(r.rng(-2, 3))
 			if g.Max < g.Min+1 {
